@@ -4886,6 +4886,12 @@ class Symbol:
             # constant symbols have their fixed value and are free - no need to check them
             if sc.is_constant:
                 continue
+            if isinstance(sc, Symbol) and sc.choice is not None:
+                # Choice symbols are resolved on choice level: the stored default selection has to be in place
+                # before a symbol that depends on a member is compared with its stored value
+                if sc.choice._user_selection is None:
+                    sc.choice.resolve_defaults()
+                continue
             sc.resolve_defaults()
 
         # Kconfig default value differs from sdkconfig default value
